@@ -24,6 +24,7 @@ RULE = (
     "shape} x seeds 0..5 x test sizes. SplineCV: every permutation of the damping grid {1e-4, 1e-1, 1e2} x mindists x cv x delayed "
     "(explorer installed as the dask scheduler, every task order / bounded interleavings). Non-trivial: the three wrong alternatives "
     "(scored on train rows, fitted on all rows, unweighted) differ from the right score by > 1e-3."
+    " Added axes: mixed-layout 2-D input, permuted-index Series, dataset at UTM offsets, a cross-validator with train != complement(test), environment-driven client (deviation bound 1 / 2), caller reconfiguring the estimator between graph construction and computation, line-granular interleavings over every line of the library (bound 1 quick; bound 2 and Vector / Chain / three tasks thorough)."
 )
 ASSUMPTIONS = ["scikit-learn's public metric functions are the metric oracle; the cv object's own split() provides the splits",
                "interleavings are explored at method boundaries of the estimator (fit / score) under the GIL; a real distributed client is replaced "
